@@ -503,6 +503,12 @@ class SymKind:
     def __len__(self):
         return len(self.realise())
 
+    def __getattr__(self, name):
+        # any other str method: realise (fork per feasible value) and delegate
+        if name.startswith("__"):
+            raise AttributeError(name)
+        return getattr(self.realise(), name)
+
 
 # --------------------------------------------------------------------------------------------
 # exploration context
